@@ -12,8 +12,11 @@ structure Cfg where
   /-- `DeserializeTicket` uses the size-capped `DecodeWithParsedTypesP2P` (the repaired sidecar/tlv.go)
       rather than `DecodeWithParsedTypes` (the pinned code) -/
   p2pTop : Bool
-  /-- `decodeBytes` (nested streams) uses `DecodeP2P` rather than `Decode` -/
+  /-- `decodeBytes` (nested streams) uses a size-capped `…P2P` variant rather than an uncapped one -/
   p2pSub : Bool
+  /-- `decodeBytes` asks for the parsed-types map (`DecodeWithParsedTypes…`): unknown records are then
+      buffered in `make([]byte, 0, length)` instead of being discarded -/
+  typesSub : Bool := false
   /-- largest `make([]byte, n)` the runtime grants -/
   maxAlloc : Nat
 
